@@ -26,7 +26,7 @@ func recordBatchSize(msgs ...Message) (size int32) {
 
 	for i := range msgs {
 		msg := &msgs[i]
-		msz := recordSize(msg, msg.Time.Sub(baseTime), int64(i))
+		msz := recordSize(msg, timestampDelta(msg.Time, baseTime), int64(i))
 		size += int32(msz + varIntLen(int64(msz)))
 	}
 
